@@ -180,11 +180,189 @@ def gen(out):
 EXTRA = []      # later sections register themselves here (see bottom of file)
 
 
+# ----------------------------------------------------------------------------- py2coq
+class Untranslatable(Exception):
+    pass
+
+
+def q_const(v):
+    from fractions import Fraction
+    if isinstance(v, bool):
+        raise Untranslatable('bool constant')
+    if isinstance(v, int):
+        return '(%d#1)' % v if v >= 0 else '(-(%d#1))' % -v
+    if isinstance(v, float):
+        fr = Fraction(repr(v))          # the decimal the programmer wrote
+        s = '(%d#%d)' % (abs(fr.numerator), fr.denominator)
+        return s if fr >= 0 else '(-%s)' % s
+    raise Untranslatable('constant %r' % (v,))
+
+
+PYCALLS = {('math', 'floor'): 'py_floor', ('math', 'ceil'): 'py_ceil', ('math', 'copysign'): 'py_copysign',
+           (None, 'int'): 'py_int', (None, 'float'): 'py_float', (None, 'abs'): 'py_abs',
+           (None, 'min'): 'py_min', (None, 'max'): 'py_max', (None, 'round'): 'py_round'}
+PYCMP = {'Lt': 'py_lt', 'LtE': 'py_le', 'Gt': 'py_gt', 'GtE': 'py_ge', 'Eq': 'py_eq', 'NotEq': 'py_ne'}
+
+
+def py2coq(e, env):
+    """python arithmetic expression AST -> Coq term over Q.  env: name -> coq term."""
+    if isinstance(e, ast.Constant):
+        return q_const(e.value)
+    if isinstance(e, ast.Name):
+        if e.id in env:
+            return env[e.id]
+        raise Untranslatable('free name %s' % e.id)
+    if isinstance(e, ast.UnaryOp) and isinstance(e.op, ast.USub):
+        return '(- %s)' % py2coq(e.operand, env)
+    if isinstance(e, ast.BinOp):
+        a, b = py2coq(e.left, env), py2coq(e.right, env)
+        if isinstance(e.op, ast.Add):
+            return '(%s + %s)' % (a, b)
+        if isinstance(e.op, ast.Sub):
+            return '(%s - %s)' % (a, b)
+        if isinstance(e.op, ast.Mult):
+            return '(%s * %s)' % (a, b)
+        if isinstance(e.op, ast.Div):
+            return '(%s / %s)' % (a, b)
+        if isinstance(e.op, ast.Pow):
+            return '(py_pow %s %s)' % (a, b)
+        if isinstance(e.op, ast.Mod):
+            return '(py_mod %s %s)' % (a, b)
+        raise Untranslatable('binop %s' % type(e.op).__name__)
+    if isinstance(e, ast.Call):
+        f = e.func
+        key = None
+        if isinstance(f, ast.Name):
+            key = (None, f.id)
+        elif isinstance(f, ast.Attribute) and isinstance(f.value, ast.Name):
+            key = (f.value.id, f.attr)
+        if key in PYCALLS and not e.keywords:
+            args = [py2coq(a, env) for a in e.args]
+            name = PYCALLS[key]
+            if name == 'py_round' and len(args) == 1:
+                args.append('0')
+            if name in ('py_min', 'py_max') and len(args) != 2:
+                raise Untranslatable('min/max arity')
+            return '(%s %s)' % (name, ' '.join(args))
+        if key in (('utility', 'away_from_zero_round'), (None, 'away_from_zero_round')) and 'away_from_zero_round' in env:
+            args = [py2coq(a, env) for a in e.args]
+            if len(args) == 1:
+                args.append('0')
+            return '(%s %s)' % (env['away_from_zero_round'], ' '.join(args))
+        raise Untranslatable('call %s' % ast.dump(f))
+    if isinstance(e, ast.IfExp):
+        return '(if %s then %s else %s)' % (py2coq_bool(e.test, env), py2coq(e.body, env), py2coq(e.orelse, env))
+    raise Untranslatable(type(e).__name__)
+
+
+def py2coq_bool(e, env):
+    if isinstance(e, ast.Compare) and len(e.ops) == 1:
+        return '(%s %s %s)' % (PYCMP[type(e.ops[0]).__name__], py2coq(e.left, env), py2coq(e.comparators[0], env))
+    if isinstance(e, ast.BoolOp):
+        op = ' && ' if isinstance(e.op, ast.And) else ' || '
+        return '(' + op.join(py2coq_bool(v, env) for v in e.values) + ')'
+    if isinstance(e, ast.UnaryOp) and isinstance(e.op, ast.Not):
+        return '(negb %s)' % py2coq_bool(e.operand, env)
+    raise Untranslatable('bool ' + type(e).__name__)
+
+
+def is_py3_test(t):
+    """sys.version_info[0] >= 3  /  == 3"""
+    return isinstance(t, ast.Compare) and isinstance(t.left, ast.Subscript) and 'version_info' in ast.dump(t.left) \
+        and isinstance(t.ops[0], (ast.GtE, ast.Eq)) and const(t.comparators[0]) == 3
+
+
+def translate_body(stmts, env):
+    """straight-line assignments, `if` on the interpreter version (python-3 branch taken) or on a
+    translatable condition, ending in return EXPR.  Returns a Coq term."""
+    env = dict(env)
+    for i, st in enumerate(stmts):
+        if isinstance(st, ast.Expr) and isinstance(st.value, ast.Constant):
+            continue                    # docstring
+        if isinstance(st, ast.Assign) and len(st.targets) == 1 and isinstance(st.targets[0], ast.Name):
+            env[st.targets[0].id] = py2coq(st.value, env)
+            continue
+        if isinstance(st, ast.Return):
+            return py2coq(st.value, env)
+        if isinstance(st, ast.If):
+            if is_py3_test(st.test):
+                return translate_body(st.body + stmts[i + 1:], env)
+            rest = stmts[i + 1:]
+            return '(if %s then %s else %s)' % (py2coq_bool(st.test, env), translate_body(st.body + rest, env),
+                                                translate_body(st.orelse + rest, env))
+        raise Untranslatable('statement %s' % type(st).__name__)
+    raise Untranslatable('no return')
+
+
+def fn_params(fn, skip_self=True):
+    names = [a.arg for a in fn.args.args]
+    if skip_self and names and names[0] == 'self':
+        names = names[1:]
+    return names
+
+
+def put_fn(out, name, fn_getter, params, env0=None):
+    """emit `Definition name (params : Q) : Q := <translated body>` ; fail-soft to golden text."""
+    def extract():
+        fn = fn_getter()
+        env = dict(env0 or {})
+        for p_ in params:
+            env[p_] = p_
+        return translate_body(fn.body, env)
+    out.put(name, ' '.join('Q ->' for _ in params) + ' Q', lambda v: '(fun %s => (%s)%%Q)' % (' '.join(params), v), extract)
+
+
+def builtin_expr(call_t, name):
+    """Call.<name>: `n, u = utility.analyze_number(value)` ... `return utility.with_unit(EXPR, u)`.
+    Returns (coq term over n, forced unit or None)."""
+    fn = find_def(call_t, 'Call', name)
+    env = {'n': 'n', 'away_from_zero_round': 'away_from_zero_round_py'}
+    unit = None
+    seen_analyze = False
+    for st in fn.body:
+        if isinstance(st, ast.Expr) and isinstance(st.value, ast.Constant):
+            continue
+        if isinstance(st, ast.Assign) and isinstance(st.targets[0], ast.Tuple) and 'analyze_number' in ast.dump(st.value):
+            names = [e.id for e in st.targets[0].elts]
+            if names != ['n', 'u']:
+                raise Untranslatable('analyze_number targets %s' % names)
+            seen_analyze = True
+            continue
+        if isinstance(st, ast.Assign) and isinstance(st.targets[0], ast.Name) and st.targets[0].id == 'u':
+            unit = const(st.value)
+            continue
+        if isinstance(st, ast.Assign) and isinstance(st.targets[0], ast.Name):
+            env[st.targets[0].id] = py2coq(st.value, env)
+            continue
+        if isinstance(st, ast.Return) and isinstance(st.value, ast.Call) and 'with_unit' in ast.dump(st.value.func):
+            a = st.value.args
+            if not seen_analyze or len(a) != 2 or not (isinstance(a[1], ast.Name) and a[1].id == 'u'):
+                raise Untranslatable('with_unit shape')
+            return [py2coq(a[0], env), unit]
+        raise Untranslatable('statement %s in Call.%s' % (type(st).__name__, name))
+    raise Untranslatable('no return in Call.%s' % name)
+
+
+def gen_numeric(out):
+    util_t = src_ast('lesscpy/lessc/utility.py')
+    call_t = src_ast('lesscpy/plib/call.py')
+    color_t = src_ast('lesscpy/lessc/color.py')
+    put_fn(out, 'away_from_zero_round_py', lambda: find_def(util_t, None, 'away_from_zero_round'), ['value', 'ndigits'])
+    put_fn(out, 'color_clamp01_py', lambda: find_def(color_t, 'Color', '_clamp'), ['value'])
+    for b in ('round', 'ceil', 'floor', 'increment', 'decrement', 'percentage'):
+        out.put('builtin_%s_py' % b, 'Q -> Q', lambda v: '(fun n => (%s)%%Q)' % v[0], lambda b=b: builtin_expr(call_t, b))
+        out.put('builtin_%s_unit' % b, 'option str', lambda v: ('(Some %s)' % coq_str(v[1])) if v[1] is not None else 'None',
+                lambda b=b: builtin_expr(call_t, b))
+
+
+EXTRA.append(gen_numeric)
+
+
 def render(out):
     lines = ['(* GENERATED by harness/gen_params.py from %s — do not edit, do not commit. *)' % REPO,
              'From Coq Require Import String.',
              'From Coq Require Import List Ascii ZArith QArith.',
-             'Require Import Model.Text Model.ParamTypes.',
+             'Require Import Model.Text Model.ParamTypes Model.Num Model.PyNum.',
              'Import ListNotations.',
              '']
     for name, ty, term in out.defs:
